@@ -121,6 +121,11 @@ def U3():
 
 
 def cases(tier, seed):
+    from .. import produced
+    return _cases(tier, seed) + produced.case_list()
+
+
+def _cases(tier, seed):
     out = []
     n = len(space.U0())
     for i in range(n):
@@ -144,6 +149,9 @@ def cases(tier, seed):
 
 
 def run_case(case, R):
+    if case.get("k") == "produced":
+        from .. import produced
+        return produced.run(R, ID, case["i0"], case["i1"])
     k = case["k"]
     if k == "u0":
         t = space.U0()[case["i"]]
